@@ -1,1 +1,183 @@
-(* stub: to be written by group Rates *)
+(* C12 - USD rows use the Bank of Canada rate of the trade date or the last
+   one before it.  Obligations of the property; proofs live in
+   Proofs/RatesProps.v and Proofs/CacheProps.v.
+
+   [pub : calendar] is ANY publication calendar (a function from days to the
+   rate published that day, if any): weekends, holidays, closures of 7, 8 or
+   more days and year ends are instances.  [e] is the environment of a run:
+   its today and what the Bank of Canada returns per year. *)
+From Coq Require Import List NArith ZArith QArith Qcanon Bool.
+From ACB Require Import Base.Outcome Base.QcExtra Base.Fit Base.Arith
+     Model.Rates Model.RatesCache Spec.RateRule Proofs.RatesProps Proofs.CacheProps.
+Import ListNotations.
+Local Open Scope Z_scope.
+
+(* The look-up of the code (get_effective_usd_cad_rate of a fresh RateLoader,
+   any force flag, empty cache: year maps are built from the remote data by
+   fill_in_unknown_day_rates) IS the declarative rule, for all trade dates and
+   all calendars: it answers with the rate r of day x exactly when x is the
+   latest day in [d-7, d] with a published rate and d itself has one or lies
+   before today; otherwise it stops with the error the rule names. *)
+Theorem C12_rule : forall (pub : calendar) (e : env),
+  (forall y, parse_all (e_remote e y) = Ok (pubrates pub y)) ->
+  (forall x, pub x <> None -> x <= e_today e) ->
+  (forall x, pub x <> Some 0%Qc) ->
+  forall d : Z,
+  exists s' a,
+    effective true e empty_st d = Ok (s', a) /\
+    match a with
+    | inr (x, r) => rule_ok pub (e_today e) d x r
+    | inl LNotYet => rule_not_yet pub (e_today e) d
+    | inl LNone7 => rule_none7 pub (e_today e) d
+    | inl _ => False
+    end.
+Proof. exact CacheProps.fresh_lookup_rule. Qed.
+Check C12_rule : forall (pub : calendar) (e : env),
+  (forall y, parse_all (e_remote e y) = Ok (pubrates pub y)) ->
+  (forall x, pub x <> None -> x <= e_today e) ->
+  (forall x, pub x <> Some 0%Qc) ->
+  forall d : Z,
+  exists s' a,
+    effective true e empty_st d = Ok (s', a) /\
+    match a with
+    | inr (x, r) => rule_ok pub (e_today e) d x r
+    | inl LNotYet => rule_not_yet pub (e_today e) d
+    | inl LNone7 => rule_none7 pub (e_today e) d
+    | inl _ => False
+    end.
+Print Assumptions C12_rule.
+
+(* never the rate of a later day, never one more than seven days old, never
+   the zero placeholder, always a rate that was published for that day *)
+Theorem C12_never_future_zero_or_old : forall (pub : calendar) (e : env),
+  (forall y, parse_all (e_remote e y) = Ok (pubrates pub y)) ->
+  (forall x, pub x <> None -> x <= e_today e) ->
+  (forall x, pub x <> Some 0%Qc) ->
+  forall d s' x r,
+    effective true e empty_st d = Ok (s', inr (x, r)) ->
+    x <= d /\ d - 7 <= x /\ r <> 0%Qc /\ pub x = Some r.
+Proof. exact CacheProps.fresh_never. Qed.
+Check C12_never_future_zero_or_old : forall (pub : calendar) (e : env),
+  (forall y, parse_all (e_remote e y) = Ok (pubrates pub y)) ->
+  (forall x, pub x <> None -> x <= e_today e) ->
+  (forall x, pub x <> Some 0%Qc) ->
+  forall d s' x r,
+    effective true e empty_st d = Ok (s', inr (x, r)) ->
+    x <= d /\ d - 7 <= x /\ r <> 0%Qc /\ pub x = Some r.
+Print Assumptions C12_never_future_zero_or_old.
+
+(* the run stops with an error exactly when the rule has no rate to offer
+   (including a trade dated today or later with no rate yet) *)
+Theorem C12_error_iff_no_rate : forall (pub : calendar) (e : env),
+  (forall y, parse_all (e_remote e y) = Ok (pubrates pub y)) ->
+  (forall x, pub x <> None -> x <= e_today e) ->
+  (forall x, pub x <> Some 0%Qc) ->
+  forall d s' a,
+    effective true e empty_st d = Ok (s', a) ->
+    ((exists err, a = inl err) <-> ~ exists x r, rule_ok pub (e_today e) d x r).
+Proof. exact CacheProps.fresh_error_iff. Qed.
+Check C12_error_iff_no_rate : forall (pub : calendar) (e : env),
+  (forall y, parse_all (e_remote e y) = Ok (pubrates pub y)) ->
+  (forall x, pub x <> None -> x <= e_today e) ->
+  (forall x, pub x <> Some 0%Qc) ->
+  forall d s' a,
+    effective true e empty_st d = Ok (s', a) ->
+    ((exists err, a = inl err) <-> ~ exists x r, rule_ok pub (e_today e) d x r).
+Print Assumptions C12_error_iff_no_rate.
+
+(* the rule determines the answer: at most one (day, rate) satisfies it *)
+Theorem C12_rule_deterministic : forall pub today d x1 r1 x2 r2,
+  rule_ok pub today d x1 r1 -> rule_ok pub today d x2 r2 -> x1 = x2 /\ r1 = r2.
+Proof. exact RatesProps.rule_ok_unique. Qed.
+Check C12_rule_deterministic : forall pub today d x1 r1 x2 r2,
+  rule_ok pub today d x1 r1 -> rule_ok pub today d x2 r2 -> x1 = x2 /\ r1 = r2.
+Print Assumptions C12_rule_deterministic.
+
+(* daily (FXCADUSD) observations are inverted with rust_decimal division,
+   noon (IEXE0101) observations are used as published (and take precedence) *)
+Theorem C12_daily_inverted_noon_as_published : forall d r x dl,
+  (a_div dec 1%Qc r = Ok x ->
+   parse_obs {| o_date := Some d; o_noon := JAbsent; o_daily := JGood r |} = Ok (Some (d, x))) /\
+  parse_obs {| o_date := Some d; o_noon := JGood r; o_daily := dl |} = Ok (Some (d, r)).
+Proof. intros d r x dl. split; [apply RatesProps.parse_obs_daily | apply RatesProps.parse_obs_noon]. Qed.
+Check C12_daily_inverted_noon_as_published : forall d r x dl,
+  (a_div dec 1%Qc r = Ok x ->
+   parse_obs {| o_date := Some d; o_noon := JAbsent; o_daily := JGood r |} = Ok (Some (d, x))) /\
+  parse_obs {| o_date := Some d; o_noon := JGood r; o_daily := dl |} = Ok (Some (d, r)).
+Print Assumptions C12_daily_inverted_noon_as_published.
+
+(* Decision rules, for every row of every accepted file (application path:
+   load_tx_rates then Tx::try_from): a USD amount without an explicit rate is
+   converted with the rule's rate of the row's TRADE date (transaction and
+   commission currency alike); an explicit rate always wins; CAD only ever
+   yields 1; no currency and no rate means 1 (commission: the transaction's
+   rate). *)
+Theorem C12_rows_decision_rules : forall (pub : calendar) (e : env),
+  (forall y, parse_all (e_remote e y) = Ok (pubrates pub y)) ->
+  (forall x, pub x <> None -> x <= e_today e) ->
+  (forall x, pub x <> Some 0%Qc) ->
+  forall rs l,
+    app_rows true e rs = Ok (inr l) ->
+    forall i r tx cm, nth_error rs i = Some r -> nth_error l i = Some (tx, cm) ->
+      (r_cur r = Some USD -> r_fx r = None -> exists x, rule_ok pub (e_today e) (r_td r) x tx) /\
+      (r_ccur r = Some USD -> r_cfx r = None -> exists x, rule_ok pub (e_today e) (r_td r) x cm) /\
+      (forall q, r_fx r = Some q -> tx = q) /\
+      (forall q, r_cfx r = Some q -> cm = q) /\
+      (r_cur r = Some CAD -> tx = 1%Qc) /\ (r_ccur r = Some CAD -> cm = 1%Qc) /\
+      (r_cur r = None -> r_fx r = None -> tx = 1%Qc) /\
+      (r_ccur r = None -> r_cfx r = None -> cm = tx).
+Proof. exact CacheProps.fresh_rows. Qed.
+Check C12_rows_decision_rules : forall (pub : calendar) (e : env),
+  (forall y, parse_all (e_remote e y) = Ok (pubrates pub y)) ->
+  (forall x, pub x <> None -> x <= e_today e) ->
+  (forall x, pub x <> Some 0%Qc) ->
+  forall rs l,
+    app_rows true e rs = Ok (inr l) ->
+    forall i r tx cm, nth_error rs i = Some r -> nth_error l i = Some (tx, cm) ->
+      (r_cur r = Some USD -> r_fx r = None -> exists x, rule_ok pub (e_today e) (r_td r) x tx) /\
+      (r_ccur r = Some USD -> r_cfx r = None -> exists x, rule_ok pub (e_today e) (r_td r) x cm) /\
+      (forall q, r_fx r = Some q -> tx = q) /\
+      (forall q, r_cfx r = Some q -> cm = q) /\
+      (r_cur r = Some CAD -> tx = 1%Qc) /\ (r_ccur r = Some CAD -> cm = 1%Qc) /\
+      (r_cur r = None -> r_fx r = None -> tx = 1%Qc) /\
+      (r_ccur r = None -> r_cfx r = None -> cm = tx).
+Print Assumptions C12_rows_decision_rules.
+
+(* the same rules as implications on a single (currency, rate) pair:
+   explicit rate: nothing is loaded; CAD: nothing is loaded, rate 1, any other
+   explicit rate rejected; another currency without a rate: rejected *)
+Theorem C12_pair_decisions : forall (c : option currency) (q : Qc) (n : N),
+  load_decide c (Some q) = LKeep /\
+  load_decide (Some CAD) None = LKeep /\ load_decide None None = LKeep /\
+  load_decide (Some USD) None = LLoadUsd /\
+  load_decide (Some (OtherCur n)) None = LErr ENoAuto /\
+  valid_rate (Some CAD) None = inr (Some (CAD, 1%Qc)) /\
+  (q <> 1%Qc -> exists err, valid_rate (Some CAD) (Some q) = inl err) /\
+  valid_rate (Some (OtherCur n)) None = inl ECurrWithoutFx /\
+  ((0 < q)%Qc -> valid_rate (Some USD) (Some q) = inr (Some (USD, q))).
+Proof. exact RatesProps.pair_decisions. Qed.
+Check C12_pair_decisions : forall (c : option currency) (q : Qc) (n : N),
+  load_decide c (Some q) = LKeep /\
+  load_decide (Some CAD) None = LKeep /\ load_decide None None = LKeep /\
+  load_decide (Some USD) None = LLoadUsd /\
+  load_decide (Some (OtherCur n)) None = LErr ENoAuto /\
+  valid_rate (Some CAD) None = inr (Some (CAD, 1%Qc)) /\
+  (q <> 1%Qc -> exists err, valid_rate (Some CAD) (Some q) = inl err) /\
+  valid_rate (Some (OtherCur n)) None = inl ECurrWithoutFx /\
+  ((0 < q)%Qc -> valid_rate (Some USD) (Some q) = inr (Some (USD, q))).
+Print Assumptions C12_pair_decisions.
+
+(* Non-vacuity: the calendar of January 2022 used in C13 (weekdays 3..19
+   January) with today = 20 January satisfies the hypotheses; the look-up of
+   Saturday 15 January answers with Friday's rate, the look-up of 2 January
+   (nothing within 7 days back to 26 December) and of today stop. *)
+Example C12_nonvacuous :
+  let pub := restrict ex_truth 19012 in
+  let e := ex_env 19012 in
+  (forall y, parse_all (e_remote e y) = Ok (pubrates pub y)) /\
+  (forall x, pub x <> None -> x <= e_today e) /\
+  (forall x, pub x <> Some 0%Qc) /\
+  (exists s, effective true e empty_st 19007 = Ok (s, inr (19006, Qcfrac 31006 10000))) /\
+  (exists s, effective true e empty_st 18994 = Ok (s, inl LNone7)) /\
+  (exists s, effective true e empty_st 19012 = Ok (s, inl LNotYet)).
+Proof. exact CacheProps.c12_example. Qed.
